@@ -92,14 +92,24 @@ def relerr (a, b):
     return float (np.abs (a - b).max (initial = 0) / n)
 # end def relerr
 
-def request (MM, m, op):
+def request (MM, m, op, reuse = None):
     if op [0] == 'far':
         kw = {}
         if op [3] is not None:
             kw ['pwr'] = op [3]
         if op [4]:
             kw ['dist'] = op [4]
-        common.guarded (lambda: m.compute_far_field (MM.Angle (*op [1]), MM.Angle (*op [2]), **kw), 'compute_far_field')
+        if reuse is not None:
+            # the history object keeps one pair of Angle objects and changes their fields between requests
+            if 'zen' not in reuse:
+                reuse ['zen'], reuse ['azi'] = MM.Angle (*op [1]), MM.Angle (*op [2])
+                reuse ['zen'].angle_deg (); reuse ['azi'].angle_rad ()
+            for a, v in ((reuse ['zen'], op [1]), (reuse ['azi'], op [2])):
+                a.initial, a.inc, a.number = v
+            zen, azi = reuse ['zen'], reuse ['azi']
+        else:
+            zen, azi = MM.Angle (*op [1]), MM.Angle (*op [2])
+        common.guarded (lambda: m.compute_far_field (zen, azi, **kw), 'compute_far_field')
     elif op [0] == 'near':
         kw = {} if op [4] is None else dict (pwr = op [4])
         common.guarded (lambda: m.compute_near_field (op [1], op [2], op [3], **kw), 'compute_near_field')
@@ -153,6 +163,7 @@ def check_history (c):
     mon  = {}
     worst = 0.0
     last = dict (far = None, near = None)
+    angles = {}
     nchk = 0
     for step, op in enumerate (ops):
         if op [0] == 'f':
@@ -162,7 +173,7 @@ def check_history (c):
         if op [0] == 'compute':
             observe.solve (m)
         elif op [0] in ('far', 'near'):
-            request (MM, m, op)
+            request (MM, m, op, reuse = angles)
             last [op [0]] = op
         opts = set ()
         if last ['far']:
